@@ -10,7 +10,7 @@ def nnls_outside_reliable_region(case, message, params):
     is only reliable for cond(A) < 1e4 (measured; after the scale fix D25 independent of scaling)."""
     from vlib.props import c01
 
-    if message.startswith(("RuntimeError", "ValueError")):
+    if "nnls.call" in message:
         if not ("Maximum number of iterations" in message or "zero-size array" in message):
             return False
     return not c01.in_reliable_region(*c01.build(case), params)
@@ -22,5 +22,8 @@ def fault_reaches_create_result(case, message, params):
     (e.g. covariance SVD of a Jacobian that a non-finite fault left behind)."""
     if case.get("kind") == "raise_region":
         return "via create_result" in message
-    post_fit = case["k"] > case["n"] - 2 * case["per_eval"]
+    if "k" in case:
+        post_fit = case["k"] > case["n"] - 2 * case["per_eval"]
+    else:  # random sub-check: k is computed at run time; the phase is part of the clause id
+        post_fit = ".post_fit" in message.split(" | ")[0]
     return bool(post_fit or "via create_result" in message)
